@@ -211,6 +211,10 @@ func fileOpenOpts(path, reader string) (s *astisub.Subtitles, err error, panicke
 	switch reader {
 	case "ts":
 		o.Teletext = astisub.TeletextOptions{PID: api.TSPID, Page: api.TSPage}
+	case "ts-pid":
+		o.Teletext = astisub.TeletextOptions{PID: api.TSPID}
+	case "ts-page":
+		o.Teletext = astisub.TeletextOptions{Page: api.TSPage}
 	case "stl-ignoretc":
 		o.STL = astisub.STLOptions{IgnoreTimecodeStartOfProgramme: true}
 	}
@@ -736,7 +740,7 @@ func genTask(r *prng.R, pool *docPool, idx int, theme string) TaskProg {
 	for i := 0; i < nw; i++ {
 		t.Writers = append(t.Writers, api.WriterFormats[r.Intn(len(api.WriterFormats))])
 	}
-	if (r.Bool(0.15) || theme == "files") && t.Reader != "ssa-opts" {
+	if (r.Bool(0.15) || theme == "files") && t.Reader != "ssa-opts" && t.Reader != "ssa-cb" {
 		// through the file helper: the extension selects the reader, so only configurations Open can express
 		t.OpenExt = map[string]string{"srt": "srt", "vtt": "vtt", "ssa": r.Pick("ssa", "ass"), "stl": "stl", "ttml": "ttml", "ts": "ts"}[d.Format]
 	}
